@@ -139,6 +139,18 @@ def run(res, tier, seed, driver_ok):
             bad('raises:statics:%s' % type(e).__name__, 'a force query raised', i2, repr(e)[:200]); continue
         lines.append('sp.sumact ' + ' '.join(C.f2h(x) for x in list(bs.T.reshape(-1)) + list(ts.T.reshape(-1)) + list(tau)))
         expect.append(('sumActuatorWrenches', sw, i2))
+        # ... and for leg forces that are NOT the ones the last statics call left behind
+        farb = np.array([rnd.uniform(-10, 10) for _ in range(6)])
+        try:
+            with contextlib.redirect_stdout(io.StringIO()):
+                swa = np.asarray(sp.sumActuatorWrenches(farb.copy()).data, dtype=float).reshape(-1)
+            lines.append('sp.sumact ' + ' '.join(C.f2h(x) for x in list(bs.T.reshape(-1)) + list(ts.T.reshape(-1)) + list(farb)))
+            expect.append(('sumActuatorWrenches(forces)', swa, dict(i2, forces=list(farb))))
+            if not float(np.abs(swa + iJ.T @ farb).max()) <= 1e-8 * max(1.0, float(np.linalg.norm(iJ.T @ farb))):
+                bad('sum-explicit-forces', 'sumActuatorWrenches(forces) is not the summed leg wrench of the forces given (-invJ^T forces)', dict(i2, forces=list(farb)),
+                    {'got': swa.tolist(), 'want': (-iJ.T @ farb).tolist()})
+        except Exception as e:
+            bad('raises:sumActuatorWrenches:%s' % type(e).__name__, 'sumActuatorWrenches(forces) raised', i2, repr(e)[:200])
         lines.append('sp.rowsT ' + ' '.join(C.f2h(x) for x in list(iJ.reshape(-1)) + list(tau)))
         expect.append(('staticForcesInv', back, i2))
         # the wrench carryMassCalc hands to the statics, recovered from the leg forces it returns: invJ^T tau_m
